@@ -57,7 +57,12 @@ impl Prop for C13 {
                 }
             }
         }
-        let nv = rng.range(3, 8);
+        // one family in ten is large (more distinct entries than a small bounded cache would keep)
+        let large = rng.chance(1, 10);
+        if large {
+            mark("probe.large_family");
+        }
+        let nv = if large { rng.range(20, 30) } else { rng.range(3, 8) };
         for _ in 0..nv {
             let kind = *rng.pick(gen::VARIANT_KINDS);
             // variants of the base, sometimes variants of variants
@@ -106,7 +111,8 @@ impl Prop for C13 {
         gw.world
     }
     fn new_gen<'w>(&self, world: &'w World, rng: &mut Rng) -> Box<dyn Gen + 'w> {
-        Box::new(Gen13 { world, len: rng.range(5, 25), steps: 0, built: vec![] })
+        let len = if world.configs.len() > 18 { rng.range(40, 60) } else { rng.range(5, 25) };
+        Box::new(Gen13 { world, len, steps: 0, built: vec![] })
     }
     fn new_exec<'w>(&self, world: &'w World) -> Box<dyn Exec + 'w> {
         Box::new(Exec13 { world, seq: vec![], failed_before: false })
@@ -124,7 +130,7 @@ impl Prop for C13 {
         &[
             "probe.hit", "probe.miss", "probe.hit_after_other_config", "probe.hit_after_failure", "probe.failing_build",
             "probe.failure_with_populated_cache", "probe.repeated_failure", "probe.family_has_polarity_twins",
-            "probe.add_patterns_build", "probe.family_has_merged_pattern_lists", "probe.behaviour_comparisons", "probe.variant_distinguished_by_probe_inputs",
+            "probe.add_patterns_build", "probe.large_family", "probe.family_has_merged_pattern_lists", "probe.behaviour_comparisons", "probe.variant_distinguished_by_probe_inputs",
             "fault.build_fail", "fault.cache_pollution",
         ]
     }
